@@ -32,18 +32,53 @@ RegIdx(cs, key) == CHOOSE i \in 1..Len(cs.regs) : RegKey(cs.regs[i]) = key
 Keys(cs) == {RegKey(cs.regs[i]) : i \in 1..Len(cs.regs)}
 SyncNew(r) == (r.kind = "isa" /\ r.acc \in {"x", "y", "z"}) \/ r.kind # "isa"
 
-ValFor(w, kk, salt) ==
+ValStd(w, kk, salt) ==
     IF kk <= NF1 THEN Bound(w, kk)
     ELSE IF kk <= 2 * NF1 THEN Bound(w, 1 + (H3(Seed, kk, salt) % NBound))
     ELSE RandBV(w, H2(Seed, kk), salt)
 
+\* exhaustive / pairwise families over the (up to two) "grid" operands cs.gk of a generated program
+GridN == 256 * NBound
+PairN == NBound * NBound
+WithLowByte(v, b) == Mk(v.w, [i \in 1..NL(v.w) |-> IF i = 1 THEN b ELSE v.l[i]])
+GPos(cs, key) == IF \E i \in 1..Len(cs.gk) : cs.gk[i] = key THEN CHOOSE i \in 1..Len(cs.gk) : cs.gk[i] = key ELSE 0
+
+ValIn(cs, kk, key, w, salt) ==
+    LET g == GPos(cs, key)
+        rnd == RandBV(w, H2(Seed, kk), salt)
+    IN
+    CASE cs.fam = "grid" /\ kk <= GridN ->
+            (IF g = 1 THEN WithLowByte(rnd, (kk - 1) % 256)
+             ELSE IF g = 2 THEN Bound(w, ((kk - 1) \div 256) + 1) ELSE ValStd(w, kk, salt))
+      [] cs.fam = "grid" /\ kk <= 2 * GridN ->
+            (IF g = 2 THEN WithLowByte(rnd, (kk - GridN - 1) % 256)
+             ELSE IF g = 1 THEN Bound(w, ((kk - GridN - 1) \div 256) + 1) ELSE ValStd(w, kk, salt))
+      [] cs.fam = "grid" /\ kk <= 2 * GridN + PairN ->
+            (IF g = 1 THEN Bound(w, ((kk - 2 * GridN - 1) \div NBound) + 1)
+             ELSE IF g = 2 THEN Bound(w, ((kk - 2 * GridN - 1) % NBound) + 1) ELSE ValStd(w, kk, salt))
+      [] cs.fam = "grid" -> ValStd(w, kk - 2 * GridN - PairN, salt)
+      [] cs.fam = "full8" /\ kk <= 65536 ->
+            (IF g = 1 THEN WithLowByte(rnd, (kk - 1) % 256)
+             ELSE IF g = 2 THEN WithLowByte(rnd, (kk - 1) \div 256) ELSE ValStd(w, kk, salt))
+      [] cs.fam = "full8" -> ValStd(w, kk - 65536, salt)
+      [] cs.fam = "pairs" /\ kk <= PairN ->
+            (IF g = 1 THEN Bound(w, ((kk - 1) \div NBound) + 1)
+             ELSE IF g = 2 THEN Bound(w, ((kk - 1) % NBound) + 1) ELSE ValStd(w, kk, salt))
+      [] cs.fam = "pairs" -> ValStd(w, kk - PairN, salt)
+      [] cs.fam = "low8" /\ kk <= 256 -> (IF g = 1 THEN WithLowByte(rnd, kk - 1) ELSE ValStd(w, kk, salt))
+      [] cs.fam = "low8" -> ValStd(w, kk - 256, salt)
+      [] OTHER -> ValStd(w, kk, salt)
+
+ValFor(w, kk, salt) == ValStd(w, kk, salt)
+
 InputState(cs, kk, model, dev) ==
     LET keys == Keys(cs)
         wof(key) == RegType(cs.regs[RegIdx(cs, key)]).w
-        old == [key \in keys |-> ValFor(wof(key), kk, 2 * RegIdx(cs, key))]
+        old == [key \in keys |-> ValIn(cs, kk, key, wof(key), 2 * RegIdx(cs, key))]
         new == [key \in keys |->
-                  IF SyncNew(cs.regs[RegIdx(cs, key)]) \/ kk <= NF1 THEN old[key]
-                  ELSE ValFor(wof(key), kk, 2 * RegIdx(cs, key) + 1)]
+                  IF SyncNew(cs.regs[RegIdx(cs, key)]) THEN old[key]
+                  ELSE IF ReadsNew(cs.regs[RegIdx(cs, key)]) THEN ValIn(cs, kk, key, wof(key), 2 * RegIdx(cs, key))
+                  ELSE ValStd(wof(key), kk + 1, 2 * RegIdx(cs, key) + 1)]
         imms == {cs.imms[i] : i \in 1..Len(cs.imms)}
     IN  [ old |-> old, new |-> new, wr |-> {},
           imm |-> [l \in imms |-> ValFor(32, kk, 100 + (CHOOSE i \in 1..Len(cs.imms) : cs.imms[i] = l))],
@@ -85,7 +120,19 @@ Diff(cs, cst, ist) ==
       vars |-> {cs.cmpvars[i] : i \in {j \in 1..Len(cs.cmpvars) :
                    LET n == cs.cmpvars[j] IN
                    (n \in DOMAIN cst.vars /\ ~IsPoison(cst.vars[n].v))
-                   /\ ~(n \in DOMAIN ist.loc /\ ist.loc[n] = cst.vars[n].v)}} ]
+                   /\ ~(n \in DOMAIN ist.loc /\ ist.loc[n] = cst.vars[n].v)}},
+      \* first differing local / register with both values (diagnostic)
+      ex |-> LET bad == {j \in 1..Len(cs.cmpvars) :
+                          LET n == cs.cmpvars[j] IN
+                          (n \in DOMAIN cst.vars /\ ~IsPoison(cst.vars[n].v))
+                          /\ ~(n \in DOMAIN ist.loc /\ ist.loc[n] = cst.vars[n].v)}
+                 badr == {key \in (cst.wr \cap ist.wr) : cst.new[key] # ist.new[key]}
+             IN  IF bad # {} THEN
+                     LET n == cs.cmpvars[CHOOSE j \in bad : TRUE]
+                     IN  [n |-> n, c |-> cst.vars[n].v, il |-> IF n \in DOMAIN ist.loc THEN ist.loc[n] ELSE U("unset")]
+                 ELSE IF badr # {} THEN
+                     LET key == CHOOSE x \in badr : TRUE IN [n |-> key, c |-> cst.new[key], il |-> ist.new[key]]
+                 ELSE [n |-> "-"] ]
 
 RunSrc(cs, kk, dev) ==
     LET s0 == InputState(cs, kk, "exec", dev)
@@ -136,11 +183,15 @@ Check(ci, kk) ==
     LET cs == Cases[ci]
     IN  [i \in 1..Len(cs.obs) |-> CheckOne(cs, cs.obs[i], kk)]
 
+\* One line per (case, input) on which some artefact does not simply agree.  The harness classifies
+\* them (listed finding / violation); TLC's own INVARIANT is used only in replay mode, because
+\* reporting thousands of invariant violations serialises the workers on TLC's trace printer.
+Brief(v) == IF v.r \in {"unspec", "diverged"} THEN [r |-> v.r] ELSE v
 Report(ci, kk, v) ==
     IF \A i \in 1..Len(v) : v[i].r = "agree" THEN TRUE
-    ELSE PrintT("TVREPORT " \o ToJson([id |-> Cases[ci].id, k |-> kk, v |-> v]))
+    ELSE PrintT("TVREPORT " \o ToJson([id |-> Cases[ci].id, k |-> kk, v |-> [i \in 1..Len(v) |-> Brief(v[i])]]))
 
-Init == c \in 1..Len(Cases) /\ k \in 1..NIn /\ verdict = <<>>
+Init == c \in 1..Len(Cases) /\ k \in 1..Cases[c].nin /\ verdict = <<>>
 Next == /\ verdict = <<>>
         /\ LET v == Check(c, k) IN verdict' = v /\ Report(c, k, v)
         /\ UNCHANGED <<c, k>>
